@@ -43,14 +43,21 @@ def Phases.set [DecidableEq K] (ph : Phases K) (k : K) : Phases K := fun k' => i
 
 def allAny : Phases K := fun _ => .any
 
-/-- `Safe good c1 acc ph p` (see the module comment) -/
-inductive Safe [DecidableEq K] (good : K → V → Prop) (c1 : K → V) (acc : R → Prop) : Phases K → Prog K V R → Prop where
-  | ret {ph r} : acc r → Safe good c1 acc ph (.ret r)
-  | read {ph k cont} :
-      (ph k = .any → ∀ v, good k v → v ≠ c1 k → Safe good c1 acc ph (cont v)) →
-      Safe good c1 acc (ph.set k) (cont (c1 k)) →
-      Safe good c1 acc ph (.read k cont)
-  | write {ph k cont} : Safe good c1 acc (ph.set k) cont → Safe good c1 acc ph (.write k (c1 k) cont)
+/-- `Safe free good c1 acc ph p` (see the module comment).  A cell is either *monotone* (`¬ free k`: it moves once from
+its initial to its canonical value `c1 k` — coordinates, table) or *free* (`free k`: it may be overwritten at any time by
+any allowed value — the key's pointer to its point object); nothing is remembered about a free cell. -/
+inductive Safe [DecidableEq K] (free : K → Prop) (good : K → V → Prop) (c1 : K → V) (acc : R → Prop) :
+    Phases K → Prog K V R → Prop where
+  | ret {ph r} : acc r → Safe free good c1 acc ph (.ret r)
+  | read {ph k cont} : ¬ free k →
+      (ph k = .any → ∀ v, good k v → v ≠ c1 k → Safe free good c1 acc ph (cont v)) →
+      Safe free good c1 acc (ph.set k) (cont (c1 k)) →
+      Safe free good c1 acc ph (.read k cont)
+  | write {ph k cont} : ¬ free k → Safe free good c1 acc (ph.set k) cont → Safe free good c1 acc ph (.write k (c1 k) cont)
+  | readFree {ph k cont} : free k → (∀ v, good k v → Safe free good c1 acc ph (cont v)) →
+      Safe free good c1 acc ph (.read k cont)
+  | writeFree {ph k v cont} : free k → good k v → Safe free good c1 acc ph cont →
+      Safe free good c1 acc ph (.write k v cont)
 
 /-- a thread: its program, the (ghost) phases, and the predicate its result has to satisfy -/
 structure Thread (K V R : Type) where
@@ -83,10 +90,10 @@ def run [DecidableEq K] [DecidableEq V] (c1 : K → V) (c : Cfg K V R) : List Na
   | i :: rest => run c1 (step c1 c i) rest
 
 /-- the invariant: every cell holds a good value, every thread is `Safe` for its phases, and a cell that some thread
-has in phase `canon` holds its canonical value -/
-def Inv [DecidableEq K] (good : K → V → Prop) (c1 : K → V) (c : Cfg K V R) : Prop :=
+has in phase `canon` holds its canonical value (monotone cells only) -/
+def Inv [DecidableEq K] (free : K → Prop) (good : K → V → Prop) (c1 : K → V) (c : Cfg K V R) : Prop :=
   (∀ k, good k (c.heap k)) ∧
-  (∀ t ∈ c.thr, Safe good c1 t.acc t.ph t.prog) ∧
-  (∀ k, (∃ t ∈ c.thr, t.ph k = .canon) → c.heap k = c1 k)
+  (∀ t ∈ c.thr, Safe free good c1 t.acc t.ph t.prog) ∧
+  (∀ k, ¬ free k → (∃ t ∈ c.thr, t.ph k = .canon) → c.heap k = c1 k)
 
 end Threads
